@@ -414,6 +414,23 @@ def run(ck, facts):
                        and sym_is_field(dstp[2][1], is_self, "len") and a[1] == ("const", "0_u8"))
                 detail = "write(%s, %s)" % (sym_show(a[0]), sym_show(a[1]))
             ck.expect(okw, "R6", "diplomat_simple_write/flush-nul", detail, "flush must store exactly one 0 byte at buf.add(len); found %s, %d raw stores" % (detail or len(writes), len(st)), C.loc(ff))
+            if len(writes) == 1:
+                wb = writes[0][0]
+                every = all(wb in pth for r in mfl.cfg.returns() for pth in mfl.paths(0, r))
+                ck.expect(every, "R6", "diplomat_simple_write/flush-nul-every-path", "the terminator is stored on every path", "the fixed writer's flush stores the NUL terminator on some paths only (e.g. `if len < cap`): "
+                          "an output that fills the buffer exactly is handed back unterminated although one byte was reserved for the terminator", C.loc(ff))
+    # the method the generated code calls after the Rust method returned runs the installed flush callback on every path (also after a failed grow: what was
+    # accepted before the failure still has to be terminated / published)
+    fm = rt.fn("diplomat_runtime::write::DiplomatWrite::flush")
+    mfm = MirFn(fm)
+    ind = [bb for bb, t in mfm.calls() if not C.mir_callee(t)]
+    ok_ind = False
+    if len(ind) == 1:
+        t = mfm.cfg.blocks[ind[0]]["term"]
+        fo = C.sym_field_of(mfm.sym_op(t["f"].get("indirect"))) if t.get("f") else None
+        ok_ind = bool(fo) and fo[1] == "flush" and all(ind[0] in pth for r in mfm.cfg.returns() for pth in mfm.paths(0, r))
+    ck.expect(ok_ind, "R7", "DiplomatWrite::flush/calls-callback-on-every-path", "(self.flush)(self) on every path",
+              "DiplomatWrite::flush does not call the installed flush callback on every path (%d indirect calls): after a failed grow the chunks accepted so far are never terminated / published" % len(ind), C.loc(fm))
 
     # --- R10 Rust-owned grow
     f = writer_slots(rt, "diplomat_buffer_write_create").get("grow")
